@@ -161,6 +161,7 @@ class AchievementGroup(ModeDevice):
         if not achievements:
             # there is nothing to rotate
             self.debug_log("Nothing to rotate. Abort.")
+            self._rotation_in_progress = False
             return
 
         try:
